@@ -15,7 +15,8 @@ Inductive case :=
 | CBrokerTable (t : list (Z * Z * Z))
 | CProxyTable (t : list (Z * Z * Z))
 | CReply (k v : Z) (unsupported guard replied : bool) (shape rv : Z)
-| CProxyReply (k v : Z) (shape : Z).
+| CProxyReply (k v : Z) (shape : Z)
+| CRespStrings (k v : Z) (maxlen : Z).   (* longest string in any decoded response of (k, v) *)
 
 Definition entry_eqb (a b : Z * Z * Z) : bool :=
   let '(x, y, z) := a in let '(x', y', z') := b in (x =? x') && (y =? y') && (z =? z').
@@ -34,4 +35,5 @@ Definition check_case (c : case) : bool :=
       | None => negb replied
       end
   | CProxyReply k v shape => shape =? shape_of (encode_header_flexible k v)
+  | CRespStrings k v maxlen => resp_strings_fit (resp_flexible k v) maxlen
   end.
